@@ -258,7 +258,7 @@ func c08R2(r *Report, ch *ssa.Function) {
 				continue
 			}
 			if c, okc := constInt(bo.Y); okc {
-				if cl, okl := bo.X.(*ssa.Call); okl && calleeObj(cl) != nil && calleeObj(cl).Name() == "Uint32" {
+				if cl, okl := bo.X.(*ssa.Call); okl && isBEDecode(cl, 32) {
 					k = c
 				}
 			}
@@ -365,7 +365,7 @@ func c08R2(r *Report, ch *ssa.Function) {
 					continue
 				}
 				if c, okc := constInt(bo.Y); okc {
-					if cl, okl := stripIntConv(bo.X).(*ssa.Call); okl && calleeObj(cl) != nil && calleeObj(cl).Name() == "Uint32" {
+					if cl, okl := stripIntConv(bo.X).(*ssa.Call); okl && isBEDecode(cl, 32) {
 						k = c
 					}
 				}
